@@ -80,7 +80,7 @@ Lemma c14_event_ok r d s o s' outs :
   Inv s -> StepOK s o s' outs -> recov s = r -> delay s = d ->
   c14_event r d (observe s) (mkEvent o outs (observe s')) = true.
 Proof.
-  intros I SO Hr Hd. destruct SO as [I' Hr' Hd' CT _ _ SA ST].
+  intros I SO Hr Hd. destruct SO as [I' Hr' Hd' CT _ _ SA ST _].
   pose proof I as [W P T C U J]. pose proof I' as [W' P' T' C' U' J'].
   unfold c14_event. cbn [ev_obs ev_op ev_out].
   change (o_eps (observe s')) with (L s'). change (o_eps (observe s)) with (L s).
